@@ -71,4 +71,25 @@ theorem atoi_itoaSpec_wrap (v : Int) (lo : -2 ^ 63 ≤ v) (hi : v < 2 ^ 63) :
 example : Conv.wrap64 (Conv.atoi (Conv.itoaSpec (-2 ^ 63))) = -2 ^ 63 :=
   atoi_itoaSpec_wrap _ (by decide) (by decide)
 
+/-- `iwitoa(v, buf, max)` never stores outside `buf[0 .. max)`: on the guarded-buffer model every
+    guard cell before and after the caller's buffer still holds the fill pattern after the call and the
+    memory keeps its size. Holds for EVERY `max` (including 0 and 1, where nothing but possibly the NUL
+    fits) and every `v` (the model mirrors the C code for `-2^63 ≤ v < 2^63`), on the truncating paths
+    (`memmove` of the digit window) as well as on the `snprintf` path for `INT64_MIN`. -/
+theorem itoa_bounds (v : Int) (max : Nat) :
+    Conv.oobWrites (Conv.itoa v max).2 max = [] ∧ (Conv.itoa v max).2.length = max + 2 * Conv.pad :=
+  ⟨Conv.oobWrites_of_guard (Conv.guard_itoa v max), (Conv.guard_itoa v max).1⟩
+
+/-- the form asked for by the property text: 64-bit values -/
+theorem itoa_bounds64 (v : Int) (max : Nat) (_lo : -2 ^ 63 ≤ v) (_hi : v < 2 ^ 63) :
+    Conv.oobWrites (Conv.itoa v max).2 max = [] := (itoa_bounds v max).1
+
+/-- non-vacuity: a truncating call (5 digits and a sign into 3 bytes) and the degenerate sizes -/
+example : Conv.oobWrites (Conv.itoa (-12345) 3).2 3 = [] ∧ Conv.oobWrites (Conv.itoa 7 0).2 0 = [] ∧
+    Conv.oobWrites (Conv.itoa (-7) 1).2 1 = [] :=
+  ⟨(itoa_bounds _ _).1, (itoa_bounds _ _).1, (itoa_bounds _ _).1⟩
+
+/-- non-vacuity of the observer: a store one past a 2-byte buffer IS reported by `oobWrites` -/
+example : Conv.oobWrites ((Conv.Mem.init 2).set (Conv.pad + 2) 0) 2 = [Conv.pad + 2] := by decide
+
 end IwModel.C19
